@@ -158,6 +158,18 @@ def matrix_and_bounds_to_text(ctx):
         inner = [s for s in stmts_of(f.node) if isinstance(s, ast.AugAssign) and isinstance(s.target, ast.Name) and s.target.id == summ]
         want = T.term(ast.parse("str(%s[i][j]) + '*' + names[j] + ' + '" % mat, mode='eval').body)
         ctx.check(bool(inner) and t(inner[0].value) == want, 'linear_symbolic#%s-term' % mat, 'coefficient [i][j] times variable j', 'term text is %s' % (unparse(inner[0].value) if inner else None), f, inner[0] if inner else f.node)
+        # the numbers are printed as they are: str(<matrix entry>), not str(float(<entry>)) - a conversion to float rounds
+        # integer coefficients beyond 2**53, so the text would hold at points where the matrix relation does not
+        for st_ in (aug[:1] + inner[:1]):
+            for c_ in ast.walk(st_.value):
+                if isinstance(c_, ast.Call) and isinstance(c_.func, ast.Name) and c_.func.id == 'str' and c_.args:
+                    root = c_.args[0]
+                    depth = 0
+                    while isinstance(root, ast.Subscript):
+                        root = root.value
+                        depth += 1
+                    ctx.check(isinstance(root, ast.Name) and root.id in (mat, rhs) and depth >= 1, 'linear_symbolic#%s-verbatim' % (mat if st_ in inner else rhs),
+                              'str(<entry>) without conversion', 'linear_symbolic prints %s: the entry is converted before it is written (integers beyond 2**53 are rounded)' % unparse(c_)[:50], f, st_)
     # symbolic_bounds: None -> -inf / +inf by an `is None` test (a bound of exactly 0 is a bound), min <= max enforced, one
     # line '<var> >= <min>' per finite lower bound and '<var> <= <max>' per finite upper bound, numbers printed in full
     from .c12_refs import REFS
@@ -296,3 +308,44 @@ def simplification_keeps_no_state_between_calls(ctx):
                     % (fi.qualname, nm), fi, enclosing_stmt(node) or fi.node)
         if not found:
             ctx.ok(mname + '#module-state', 'no function of %s writes module-level state (%d functions)' % (mname, len(m.funcs)), next(iter(m.funcs.values())), m.tree)
+
+
+@rule('C12.h', min_instances=1)
+def callers_constants_override_the_library_names(ctx):
+    """_simplify evaluates and solves the equations in a namespace that holds numpy / math / builtins names AND the caller's `locals` constants; the caller's constants are merged in AFTER the import preamble has been executed into a namespace that was created empty - built the other way round, a constant named like a library object (e, pi, gamma, ...) silently takes the library's value, i.e. a different system is simplified"""
+    f = ctx.func(SY + ':_simplify')
+    body = f.node.body
+    execs = [(i, c) for i, st in enumerate(body) for c in calls_where(st, lambda c: callee_text(c) == 'exec' and len(c.args) >= 2, include_lambda=False)]
+    ctx.need(execs, '_simplify no longer executes an import preamble into a namespace')
+    ns = execs[0][1].args[1]
+    ctx.need(isinstance(ns, ast.Name), '_simplify: namespace is not a plain local')
+    ns = ns.id
+    created = [(i, st) for i, st in enumerate(body) if isinstance(st, ast.Assign) and any(isinstance(tg, ast.Name) and tg.id == ns for tg in st.targets)]
+    ctx.need(created, '_simplify: namespace %s is never created' % ns)
+    ci, cst = created[0]
+    empty = isinstance(cst.value, ast.Dict) and not cst.value.keys or (isinstance(cst.value, ast.Call) and callee_text(cst.value) == 'dict' and not cst.value.args and not cst.value.keywords)
+    b = T.Builder()
+    merges = []
+    for i, st in enumerate(body):
+        for c in calls_where(st, lambda c: isinstance(c.func, ast.Attribute) and c.func.attr == 'update' and isinstance(c.func.value, ast.Name) and c.func.value.id == ns, include_lambda=False):
+            arg = T.simp(b.t(c.args[0])) if c.args else None
+            if arg is not None and "'locals'" in T.show(arg):
+                merges.append((i, st))
+        if isinstance(st, ast.Assign) and all(isinstance(tg, ast.Name) for tg in st.targets):
+            b.exec_stmt(st)
+    last_exec = max(i for i, c in execs)
+    ok_ = empty and bool(merges) and all(i > last_exec for i, st in merges) and ci < execs[0][0]
+    ctx.check(ok_, '_simplify#namespace-order', '%s = {} ; exec(preamble, %s) ; %s.update(caller\'s locals)' % (ns, ns, ns),
+              '_simplify builds its namespace as %s%s: the import preamble is executed over the caller\'s constants (a constant named e / pi / gamma takes the library\'s value)'
+              % (norm_stmt(cst)[:60], '' if merges else ' and never merges the caller\'s locals afterwards'), f, cst)
+
+
+@rule('C12.i', min_instances=1)
+def no_equation_is_lost_before_solving(ctx):
+    """solve's front end _prepare_sympy hands every well-formed line of the system to sympy: each line with exactly one '=' and two non-blank sides is appended to the left / right lists, in order, and counted - nothing is skipped as a "duplicate" (an equation whose two sides each occur in OTHER lines is a new equation); reference summary confirmed by reading"""
+    from .c12_refs import REFS
+    a = 'mystic._symbolic:_prepare_sympy'
+    f = ctx.func(a)
+    got, want = SB.agree(f.node, REFS[a])
+    ctx.stats['terms_compared'] += len(got)
+    ctx.check(got == want, '_prepare_sympy', 'every well-formed equation is kept, in order', '_prepare_sympy differs from its confirmed behaviour: %s' % SB.diff(got, want)[:600], f, f.node)
